@@ -1,3 +1,208 @@
-/-! # C05 — (stub: property theorems go here; see docs/BUILDING.md) -/
+import PtVerif.Proofs.XrayData
+/-!
+# C05 — x-ray scattering factors, SLD, refraction, mirror reflectivity, f0
+
+Model: `PtVerif.Model.Xray` (tied to xsf.py / cromermann.py on every run by
+`harness/ptv/props/C05.py`: translator for `f0_WaasKirf.dat` + constants, differential
+correspondence with `ptdriver xray`, exact oracle on the raw `.nff` rows).
+
+The statements hold for every table, compound, density, energy … over any linearly ordered
+field (interpolation), any field (SLD algebra) or ℝ (reflectivity, f0).  A NaN of the code is
+`none`; a raised exception is `Except.error`.  Floating-point rounding is not covered.
+-/
 namespace PtVerif.C05
+open PtModel PtModel.Xray
+
+variable {α : Type}
+
+/-! ## f1, f2 are the linear interpolation of the tabulated values, NaN outside -/
+
+/-- between two consecutive nodes of an increasing table the result is the tabulated value on
+    the left node and numpy's linear formula `(y₁−y₀)/(x₁−x₀)·(x−x₀)+y₀` strictly inside
+    (NaN next to a NaN node) -/
+theorem interp_is_linear_between_nodes [Field α] [LinearOrder α]
+    (pre post : List (α × Option α)) (x0 x1 : α) (y0 y1 : Option α)
+    (ht : Increasing (pre ++ (x0, y0) :: (x1, y1) :: post)) (x : α) (h0 : x0 ≤ x) (h1 : x < x1) :
+    interpNaN (pre ++ (x0, y0) :: (x1, y1) :: post) x
+      = if x = x0 then y0 else linO x0 y0 x1 y1 x :=
+  interpNaN_between pre post x0 x1 y0 y1 ht x h0 h1
+
+/-- every node of an increasing table (the last one included) returns its tabulated value -/
+theorem interp_node [Field α] [LinearOrder α] (t : List (α × Option α)) (ht : Increasing t)
+    (p : α × Option α) (hp : p ∈ t) : interpNaN t p.1 = p.2 := interpNaN_node t ht p hp
+
+/-- NaN left of the first and right of the last node -/
+theorem interp_outside_none [Field α] [LinearOrder α] (t : List (α × Option α)) (ht : Increasing t)
+    (x : α) (h : (∀ p ∈ t, x < p.1) ∨ (∀ p ∈ t, p.1 < x)) : interpNaN t x = none := by
+  rcases h with h | h
+  · cases t with
+    | nil => simp [interpNaN]
+    | cons p r => obtain ⟨x0, y0⟩ := p; exact interpNaN_left x0 y0 r x (h (x0, y0) (by simp))
+  · exact interpNaN_right t ht x h
+
+/-- the table `Xray._gettable` builds from *any* raw file with pairwise distinct energies – in
+    whatever order its rows are – is strictly increasing in energy … -/
+theorem loaded_table_increasing [Field α] [LinearOrder α] (rows : List (α × α × α))
+    (hd : DistinctEnergies rows) :
+    Increasing (f1Nodes (loadTable rows)) ∧ Increasing (f2Nodes (loadTable rows)) :=
+  ⟨increasing_f1Nodes _ (loadTable_increasing rows hd), increasing_f2Nodes _ (loadTable_increasing rows hd)⟩
+
+/-- … and serves every tabulated row at its own energy: f1 (NaN for the `-9999` marker) and f2 -/
+theorem every_tabulated_row_is_served [Field α] [LinearOrder α] (rows : List (α × α × α))
+    (hd : DistinctEnergies rows) (r : α × α × α) (hr : r ∈ rows) :
+    scatteringFactors (loadTable rows) (loadRow r).e = ((loadRow r).f1, some (loadRow r).f2) :=
+  scatteringFactors_node rows hd r hr
+
+/-! ## SLD of a compound -/
+
+/-- `xray_sld` is `r_e·N_A·ρ/m·1e-8` times the count-weighted sums of f1 and f2 over the parts of
+    the (arbitrarily nested) formula, `m` being the count-weighted sum of the atomic masses;
+    hypotheses: every atom has a table and the energy is in the numeric range of each -/
+theorem sld_eq_spec [Field α] [DecidableEq α] (am f1 f2 : Atom → α)
+    (sf : Atom → Option (Option α × Option α)) (s : Items α) (d : α)
+    (h : ∀ e ∈ s.atoms, sf e.1 = some (some (f1 e.1), some (f2 e.1)))
+    (hm : s.flatMass am ≠ 0) :
+    xraySld am sf s.atoms (some d)
+      = .ok (some (d / s.flatMass am * PtGen.avogadro_number * (((1 : ℕ) : α) / ((100000000 : ℕ) : α))
+                    * s.flatMass f1 * PtGen.electron_radius),
+             some (d / s.flatMass am * PtGen.avogadro_number * (((1 : ℕ) : α) / ((100000000 : ℕ) : α))
+                    * s.flatMass f2 * PtGen.electron_radius)) :=
+  xraySld_eq_spec am f1 f2 sf s d h hm
+
+/-- the error branches: no density → `AssertionError`; an atom without a table → `ValueError` -/
+theorem sld_raises [Field α] [DecidableEq α] (am : Atom → α)
+    (sf : Atom → Option (Option α × Option α)) (t : List (Atom × α)) :
+    xraySld am sf t none = .error .noDensity ∧
+    ∀ d, (∃ e ∈ t, sf e.1 = none) → xraySld am sf t (some d) = .error .noTable :=
+  ⟨rfl, fun d h => xraySld_noTable am sf t d h⟩
+
+/-- linear in density – also on the NaN, empty-formula and error branches -/
+theorem linear_in_density [Field α] [DecidableEq α] (am : Atom → α)
+    (sf : Atom → Option (Option α × Option α)) (t : List (Atom × α)) (d k : α) :
+    xraySld am sf t (some (k * d)) = (xraySld am sf t (some d)).map (scalePair k) :=
+  xraySld_density_scale am sf t d k
+
+/-- at equal natural density the SLD does not depend on which isotopes are present: `ρ` relabels
+    atoms (isotope ↔ element) leaving element-level data (factors, natural mass) unchanged -/
+theorem isotope_independent [Field α] [DecidableEq α] (am nm f1 f2 : Atom → α)
+    (sf : Atom → Option (Option α × Option α)) (s : Items α) (ρ : Atom → Atom) (nd : α)
+    (h : ∀ e ∈ s.atoms, sf e.1 = some (some (f1 e.1), some (f2 e.1)))
+    (h' : ∀ e ∈ (mapItems ρ s).atoms, sf e.1 = some (some (f1 e.1), some (f2 e.1)))
+    (hf1 : ∀ a, f1 (ρ a) = f1 a) (hf2 : ∀ a, f2 (ρ a) = f2 a) (hnm : ∀ a, nm (ρ a) = nm a)
+    (hm : s.flatMass am ≠ 0) (hm' : (mapItems ρ s).flatMass am ≠ 0) (hn : s.flatMass nm ≠ 0) :
+    xraySld am sf (mapItems ρ s).atoms (some (densityOfNatural am nm (mapItems ρ s).atoms nd))
+      = xraySld am sf s.atoms (some (densityOfNatural am nm s.atoms nd)) :=
+  xraySld_isotope_independent am nm f1 f2 sf s ρ nd h h' hf1 hf2 hnm hm hm' hn
+
+/-- the SLD of a bare element (`Xray.sld`) is the SLD of its one-atom compound at the element's
+    density, the number density being `N_A·ρ/m` (density.py; C06) -/
+theorem element_sld_eq_one_atom_compound [Field α] [DecidableEq α] (am : Atom → α)
+    (sf : Atom → Option (Option α × Option α)) (a : Atom) (f1 f2 rho : α)
+    (hsf : sf a = some (some f1, some f2)) (hm : am a ≠ 0) :
+    xraySld am sf [(a, 1)] (some rho)
+      = .ok ((elementSld (some f1, some f2) (some (PtGen.avogadro_number * (rho / am a)))).getD (none, none)) :=
+  elementSld_eq_compound am sf a f1 f2 rho hsf hm
+
+/-! ## energy ↔ wavelength, index of refraction -/
+
+/-- `energy=` and `wavelength=` are inverse conversions -/
+theorem energy_wavelength_roundtrip [Field α] [CharZero α] (e : α) (he : e ≠ 0) :
+    xrayEnergy (xrayWavelength e) = e ∧ xrayWavelength (xrayEnergy e) = e :=
+  ⟨xrayEnergy_xrayWavelength e he, xrayWavelength_xrayEnergy e he⟩
+
+section
+attribute [local instance] realTransc
+
+/-- `n = 1 − λ²/(2π)·(ρ + iρᵢ)·1e-6`; NaN as soon as one SLD is NaN -/
+theorem refraction_eq_spec (lam rho irho : ℝ) :
+    indexOfRefraction lam (some rho, some irho)
+      = some (1 - lam * lam / (2 * Real.pi) * rho * (1 / 1000000),
+              0 - lam * lam / (2 * Real.pi) * irho * (1 / 1000000)) ∧
+    (∀ i : Option ℝ, indexOfRefraction lam (none, i) = none) ∧
+    (∀ r : Option ℝ, indexOfRefraction lam (r, none) = none) := by
+  refine ⟨?_, ?_, ?_⟩
+  · unfold indexOfRefraction
+    simp only [Nat.cast_ofNat, Nat.cast_one]
+    rfl
+  · intro i; cases i <;> rfl
+  · intro r; cases r <;> rfl
+
+/-! ## mirror reflectivity -/
+
+/-- thick-mirror reflectivity lies in [0, 1] for every wavelength > 0, incidence angle in
+    [0°, 180°], roughness and (complex) index of refraction, under the one hypothesis about
+    numpy's complex square root that it is the principal branch (`0 ≤ re (csqrt z)`);
+    `none` (NaN index of refraction) is the only other outcome -/
+theorem reflectivity_in_unit_interval (csqrt : ℝ × ℝ → ℝ × ℝ) (hc : ∀ z, 0 ≤ (csqrt z).1)
+    (lam ang rough : ℝ) (n : Option (ℝ × ℝ)) (hl : 0 < lam) (h0 : 0 ≤ ang) (h1 : ang ≤ 180)
+    (R : ℝ) (h : mirrorReflectivity csqrt lam ang rough n = some R) : 0 ≤ R ∧ R ≤ 1 :=
+  mirrorReflectivity_bounds csqrt hc lam ang rough n hl h0 h1 R h
+
+/-! ## f0 -/
+
+/-- inside the fitted range `f0` is `Σ aᵢ exp(−bᵢ s²) + c` with `s = Q/4π`; beyond `s = 6` NaN -/
+theorem f0_nan_beyond (ab : List (ℝ × ℝ)) (c Q : ℝ) :
+    (6 < Q / (4 * Real.pi) → f0 ab c Q = none) ∧
+    (Q / (4 * Real.pi) ≤ 6 → f0 ab c Q = some (f0val ab c Q)) := by
+  have h4 : (((4 : ℕ) : ℝ) * Transc.pi) = 4 * Real.pi := by norm_num; rfl
+  have h6 : ((6 : ℕ) : ℝ) = 6 := by norm_num
+  rw [f0_eq, h4, h6]
+  constructor
+  · intro h; simp [h]
+  · intro h; simp [not_lt.mpr h]
+
+/-- f0 is continuous at Q = 0, where it equals Σa + c … -/
+theorem f0_tendsto (ab : List (ℝ × ℝ)) (c : ℝ) :
+    Filter.Tendsto (f0val ab c) (nhds 0) (nhds (sumA ab + c)) := f0val_tendsto ab c
+
+/-- … and for every row of the regenerated `f0_WaasKirf.dat` that names an atom or ion, Σa + c is
+    its electron count Z − q to within 0.05 (kernel-checked over the whole table on every run) -/
+theorem f0_limit_is_electron_count (r : PtGen.F0Row) (hr : r ∈ PtGen.f0Rows) (hn : r.named = true) :
+    |sumA (rowCoeffs (α := ℝ) PtGen.f0Scale r.a r.b r.c).1
+        + (rowCoeffs (α := ℝ) PtGen.f0Scale r.a r.b r.c).2 - (((r.z : Int) - r.q : Int) : ℝ)| ≤ 1 / 20 :=
+  f0_limit_electron_count r hr hn
+
+end
+
+/-! ## which table entry an atom or ion resolves to (`fxrayatstol`) -/
+
+/-- an element symbol (letters only) with charge `q ≠ 0` is looked up under
+    `<symbol><digits of |q|, reversed><sign>` – the `Fe2+`, `O1-` convention of the table – and a
+    neutral atom under its bare symbol; so no atom or ion reaches an entry whose name is not of that
+    form (the valence entries `Cval`, `Siva`) -/
+theorem resolve_symbol_charge (sym : List Char) (h : ∀ c ∈ sym, c ∉ stripSet) (q : Int) :
+    (q ≠ 0 → resolveSymbol sym (some q)
+      = sym ++ (Nat.toDigits 10 q.natAbs).reverse ++ [if q < 0 then '-' else '+']) ∧
+    resolveSymbol sym (some 0) = sym := by
+  refine ⟨fun hq => ?_, resolveSymbol_neutral sym h⟩
+  rw [resolveSymbol_ion sym q hq, rstripSet_id sym h]
+
+/-! ## non-vacuity -/
+
+-- a three-node table with a NaN first node, queried inside, on a node, next to the NaN node
+example : interpNaN [((1 : ℚ), none), (2, some 10), (4, some 20)] 3 = some 15 := by decide +kernel
+example : interpNaN [((1 : ℚ), none), (2, some 10), (4, some 20)] 2 = some 10 := by decide +kernel
+example : interpNaN [((1 : ℚ), none), (2, some 10), (4, some 20)] (3/2) = none := by decide +kernel
+example : Increasing [((1 : ℚ), none), (2, some 10), (4, some 20)] := by
+  unfold Increasing; decide +kernel
+-- a raw table whose rows are out of order (as si.nff) still has distinct energies
+example : DistinctEnergies [((1838800 : ℚ), 2, 0), (1839000, 3, 2), (1838900, 8, 4)] := by
+  unfold DistinctEnergies; decide +kernel
+-- … and is served in energy order
+example : (loadTable [((1838800 : ℚ), 2, 0), (1839000, 3, 2), (1838900, 8, 4)]).map (·.e)
+    = [9194/5, 18389/10, 1839] := by decide +kernel
+-- the SLD hypotheses are satisfiable: H2O with constant factors, non-zero mass
+example : xraySld (α := ℚ) (fun a => if a.z = 1 then 1 else 16) (fun _ => some (some 1, some 0))
+    (Items.cons 2 (.atom ⟨1, 0, 0⟩) (.cons 1 (.atom ⟨8, 0, 0⟩) .nil)).atoms (some 1)
+    = .ok (some (1 / 18 * PtGen.avogadro_number * (1 / 100000000) * 3 * PtGen.electron_radius),
+           some (1 / 18 * PtGen.avogadro_number * (1 / 100000000) * 0 * PtGen.electron_radius)) := by
+  decide +kernel
+-- a named row exists, and an unnamed one (valence entry) exists
+example : ∃ r ∈ PtGen.f0Rows, r.named = true ∧ r.q = 2 := by decide +kernel
+example : ∃ r ∈ PtGen.f0Rows, r.named = false := by decide +kernel
+-- symbol resolution on concrete ions
+example : resolveSymbol ['F', 'e'] (some 2) = ['F', 'e', '2', '+'] := by decide +kernel
+example : resolveSymbol ['O'] (some (-1)) = ['O', '1', '-'] := by decide +kernel
+example : resolveSymbol ['N', 'a', '+'] none = ['N', 'a', '1', '+'] := by decide +kernel
+
 end PtVerif.C05
